@@ -146,8 +146,9 @@ func runSqlwCtx(sc sqlwScenario, failAt int, cancel bool) (string, []recCall) {
 	var status string
 	select {
 	case status = <-done:
-	case <-time.After(20 * time.Second):
+	case <-time.After(10 * time.Second):
 		status = "hang"
+		hangDetected = true
 	}
 	if cancel && sc.entry == 1 {
 		// database/sql rolls a cancelled transaction back from its own goroutine, possibly after the call
